@@ -18,6 +18,11 @@ theorem hash_is_sysv (ty : BitVec 32) : tq_sym_hash_is_sysv ty = (ty == BitVec.o
 theorem hash_is_gnu (ty : BitVec 32) :
     tq_sym_hash_is_gnu ty = (ty == BitVec.ofNat 32 SHT_GNU_HASH || ty == BitVec.ofNat 32 DT_GNU_HASH) := rfl
 theorem linear_needed (b : Bool) : tq_sym_linear_needed b = !b := rfl
+theorem gnu_is32 (c : Cls) : tq_sym_gnu_is32 (SymTab.clsByte c) = (c == .c32) := by cases c <;> decide
+theorem gnuLookupT_dispatch (t : SymTab) :
+    TQ.gnuLookupT (tq_sym_gnu_is32 (SymTab.clsByte t.cfg.cls)) t = TQ.gnuLookup t := by
+  unfold TQ.gnuLookup SymTab.c32
+  rw [gnu_is32]
 theorem vr_i_init_eq : vr_i_init = 0 := rfl
 theorem vd_i_init_eq : vd_i_init = 0 := rfl
 theorem vr_pos_init_eq : tq_vr_pos_init = 0 := by decide
@@ -173,7 +178,8 @@ theorem bind_ok_eq {α β : Type} {x : M α} {a : α} (f : α → M β) (h : x =
 /-- `get_symbol(index, …)` is memory-safe for every index on every table whose sections are `Sec` -/
 theorem getSymbol_total (t : SymTab) (ht : TabOk t) (i : BitVec 64) (str : Bytes) (a : Attrs) :
     ∃ r, t.getSymbol i str a = .ok r := by
-  unfold SymTab.getSymbol SymTab.guardNum
+  rw [SymTie.getSymbol_unfold]
+  unfold SymTab.guardNum
   simp only [ht.sym.secData, sym32_get_guard, sym64_get_guard, sym32_get_off, sym64_get_off, ite_self]
   cases hd : t.sym.data with
   | none => exact ⟨_, rfl⟩
@@ -195,7 +201,8 @@ theorem getSymbol_total (t : SymTab) (ht : TabOk t) (i : BitVec 64) (str : Bytes
 
 /-- `generic_get_symbol_ptr<T>(i)` + the `st_value` read of the by-value search -/
 theorem symPtrValue_total (t : SymTab) (ht : TabOk t) (i : BitVec 64) : ∃ r, t.symPtrValue i = .ok r := by
-  unfold SymTab.symPtrValue SymTab.guardNum
+  rw [SymTie.symPtrValue_unfold]
+  unfold SymTab.guardNum
   simp only [ht.sym.secData, sym32_ptr_guard, sym64_ptr_guard, sym32_ptr_off, sym64_ptr_off, ite_self]
   cases hd : t.sym.data with
   | none => exact ⟨_, rfl⟩
@@ -354,7 +361,7 @@ theorem relGetResolved_total (enc : Enc) (b : SecBuf) (hs : Sec b) (symtab : Opt
     split
     · exact ⟨_, rfl⟩
     · obtain ⟨g, hg⟩ := getSymbol_total t (ht t rfl)
-        (BitVec.setWidth 64 (r.getD { offset := 0, symbol := 0, type := 0, addend := 0 }).symbol) [] {}
+        (tq_reloc_sym_index (r.getD { offset := 0, symbol := tq_reloc_symbol_init, type := 0, addend := 0 }).symbol) [] {}
       rw [hg]; exact ⟨_, rfl⟩
 
 /-! ### the SysV hash walk (after fixes/11, 12) -/
